@@ -11,7 +11,7 @@ static bool is_content_kind(const std::string &k) { return k == "BITROT" || k ==
 static bool is_file_fn(const std::string &t) { return t == "fopen" || t == "fseek" || t == "ftell" || t == "fread"; }
 
 // a hinted font whose advance callback is a pure function of the glyph id (no state: the library may call it in any order)
-static float hinted_advance(const void *h, gr_uint16 gid) { const float ppm = *static_cast<const float *>(h); return float((gid * 37u) % 997u) * ppm / 640.0f + ppm / 8.0f; }
+static float hinted_advance(const void *h, gr_uint16 gid) { const float ppm = *static_cast<const float *>(h); if (gid % 11u == 7u) return gid % 2u ? -1.0f : -ppm / 3.0f;   /* a hinter that has no answer for some glyphs, every time */ return float((gid * 37u) % 997u) * ppm / 640.0f + ppm / 8.0f; }
 static float g_hint_ppm[64]; static unsigned g_hint_next = 0;
 gr_font *make_font_maybe_hinted(float ppm, const gr_face *face, bool hinted) {
     if (!hinted) return gr_make_font(ppm, face);
@@ -372,6 +372,15 @@ OpResult World::op_face_query(const Op &op) {
         case 6: { const gr_faceinfo *i = gr_face_info(f.face, u32(arg)); r.v.push_back(i ? 1 : 0); if (i) { r.v.push_back(i->upem); r.v.push_back(i->extra_ascent); r.v.push_back(i->extra_descent); r.v.push_back(i->space_contextuals); r.v.push_back(i->has_bidi_pass); r.v.push_back(i->line_ends); r.v.push_back(i->justifies); } break; }
         case 7: for (u32 cp : op.text) r.v.push_back(gr_face_is_char_supported(f.face, cp, 0)); break;
         case 8: { gr_feature_val *fv = gr_face_featureval_for_lang(f.face, u32(arg)); r.v.push_back(fv ? 1 : 0); if (fv) { for (unsigned k = 0; k < f.nfeat; ++k) { const gr_feature_ref *fr = gr_face_fref(f.face, gr_uint16(k)); if (fr) r.v.push_back(gr_fref_feature_value(fr, fv)); } gr_featureval_destroy(fv); } break; }
+        case 10: {   // look a feature up by the id the face itself reports for it: must come back with that id
+            unsigned nf = gr_face_n_fref(f.face); if (!nf) break;
+            const gr_feature_ref *fr = gr_face_fref(f.face, gr_uint16(u64(arg) % nf)); if (!fr) { r.v.push_back(-1); break; }
+            const u32 id = gr_fref_id(fr); if ((id & 0xFF) == 0x20) break;      // ids ending in a space are looked up zero-padded (tag padding rule): not an identity
+            const gr_feature_ref *fr2 = gr_face_find_fref(f.face, id);
+            r.v.push_back(i64(id)); r.v.push_back(fr2 ? i64(gr_fref_id(fr2)) : -1);
+            if (!fr2 || gr_fref_id(fr2) != id) violation(std::string(concurrent ? "C09" : "C18") + ":find-fref-wrong-feature", strf("gr_face_find_fref(0x%08x) returned %s", id, fr2 ? strf("the feature with id 0x%08x", gr_fref_id(fr2)).c_str() : "NULL"));
+            probe("feat:find-by-own-id");
+            break; }
         default: break;
         }
     }
